@@ -596,9 +596,15 @@ def run_check(prop, tier, seed, budget_scale=1.0):
     for l in out_lines:
         print(l)
     sys.stdout.flush()
+    # a violation that passed the replay gate (reproduced twice in fresh processes) is a verdict whatever else went
+    # wrong around it; infrastructure problems alone are exit 2
+    if n_viol:
+        return 1
     if infra_problems:
+        for p in infra_problems[:10]:
+            log("INFRA:", p)
         return 2
-    return 1 if n_viol else 0
+    return 0
 
 
 def run_replay(path):
